@@ -6,7 +6,7 @@ env = dict(os.environ)
 env.pop("PYAUTOFIT_VERIF", None)
 with tempfile.TemporaryDirectory() as d:
     x = os.path.join(d, "junit.xml")
-    cmd = base["cmd"].replace("<file>", x).replace("cd /repo", "cd " + os.environ.get("VERIF_REPO", "/repo"))
+    cmd = base["cmd"].replace("<file>", x).replace("cd /repo", "cd " + (os.environ.get("VERIF_REPO") or "/repo"))
     p = subprocess.run(cmd, shell=True, env=env, capture_output=True, text=True)
     passed = set()
     for tc in ET.parse(x).getroot().iter("testcase"):
